@@ -19,6 +19,23 @@ CLAIMS = {
             "PanicAlways. Every Rust syntactic form (methods, in-place, operator traits on values/references, compound "
             "assignment; Lut and all 13 LutN aliases) is tied to the single model function by the per-run transcript replay.",
             "section 6 C01"),
+    "C02": ("Well-formedness (exactly max(1,2^n/64) blocks, no bit at a position >= 2^n) proved to be an inductive invariant of the "
+            "WHOLE table-producing API: a call language with 37 constructors (all constructors, random over any generator stream, "
+            "from_blocks, from_hex_string, integer and Lut<->LutN conversions, From<&Sop/&Esop/&Soes>, not/and/or/xor, flip, swap, "
+            "swap_adjacent, both cofactors, from_cofactors, set/unset_bit, set_value, iterator items, the three canonizations), histories "
+            "of any length and shape, every intermediate value (C02_intermediate), every n; on such values ==, Hash input and cmp = Equal "
+            "proved equivalent to 'same number of variables and same value on every assignment', for Lut and LutN. Random call histories "
+            "on the real crate (both types, both profiles) are replayed on the model on every run.", "section 6 C02"),
+    "C04": ("For n <= 8 (the property's bound; it enters only through the kernel-checked coverage computation of the swap/flip "
+            "sequences - generated tables for n <= 6, the Gallina mirror of the generators for n = 7, 8) and EVERY well-formed table "
+            "(symbolic): p/n/npn_canonization return Ok (no panic), the representative is <= every table in the orbit (P: all "
+            "permutations; N: all 2^(n+1) complementations; NPN: both) in the library's own order (cmp, = numeric order), it is itself "
+            "in the orbit, canonizing it returns it unchanged, and two functions get the same representative iff they are equivalent "
+            "under the group (group laws of the action proved for every n).", "section 6 C04"),
+    "C05": ("For n <= 8 and every well-formed table: the returned (perm, mask) is a valid certificate - perm a permutation of 0..n, "
+            "mask < 2^(n+1), and the returned table equals y |-> f(x) xor mask[n] with x[perm[i]] = y[i] xor mask[i] on every "
+            "assignment; P uses mask 0, N the identity permutation; stated separately for already-canonical inputs (where the pinned "
+            "code failed). Walk invariant proved for arbitrary valid closed sequences and every n.", "section 6 C05"),
     "C03": ("flip, swap, swap_adjacent, cofactor0/1, from_cofactors proved exact at the level of the function value "
             "(val t' m = val t (flipbit/swapbits/clearbit/setbit m ..)) for EVERY n, every well-formed table and every index "
             "< n, in all storage regimes (in-word via masked-shift pieces checked by vm_compute on the generated VAR_MASK / "
